@@ -692,6 +692,64 @@ func main() {
 		p("].\n")
 	}
 
+	// ---- generator: keyword escaping in unexport, procedure format ----
+	p("\n(* ---- cmd/protoc-gen-connect-go ---- *)\n")
+	{
+		gf, err := parser.ParseFile(e.fset, filepath.Join(*repo, "cmd", "protoc-gen-connect-go", "main.go"), nil, 0)
+		if err != nil {
+			e.fail("generator: cannot parse cmd/protoc-gen-connect-go/main.go: %v", err)
+		} else {
+			var kws []string
+			prefix := ""
+			procFmt := ""
+			for _, d := range gf.Decls {
+				fd, ok := d.(*ast.FuncDecl)
+				if !ok {
+					continue
+				}
+				switch fd.Name.Name {
+				case "unexport":
+					ast.Inspect(fd.Body, func(n ast.Node) bool {
+						cc, ok := n.(*ast.CaseClause)
+						if !ok || cc.List == nil {
+							return true
+						}
+						for _, c := range cc.List {
+							if s, ok := e.exprStr(c); ok {
+								kws = append(kws, s)
+							}
+						}
+						if r := firstReturn(cc.Body); r != nil {
+							if be, ok := r.(*ast.BinaryExpr); ok && be.Op == token.ADD {
+								if s, ok := e.exprStr(be.X); ok {
+									prefix = s
+								}
+							}
+						}
+						return true
+					})
+				case "procedureName":
+					ast.Inspect(fd.Body, func(n ast.Node) bool {
+						if bl, ok := n.(*ast.BasicLit); ok && bl.Kind == token.STRING && procFmt == "" {
+							procFmt, _ = strconv.Unquote(bl.Value)
+						}
+						return true
+					})
+				}
+			}
+			p("Definition gen_keywords : list bytes := (* unexport: names escaped because they are Go keywords *)\n  [")
+			for i, k := range kws {
+				if i > 0 {
+					p("; ")
+				}
+				p("%s (* %q *)", coqBytes(k), k)
+			}
+			p("].\n")
+			p("Definition gen_keyword_prefix : bytes := %s. (* %q *)\n", coqBytes(prefix), prefix)
+			p("Definition gen_procedure_format : bytes := %s. (* procedureName: %q *)\n", coqBytes(procFmt), procFmt)
+		}
+	}
+
 	if len(e.errs) > 0 {
 		for _, m := range e.errs {
 			fmt.Fprintf(os.Stderr, "translate: SHAPE %s\n", m)
